@@ -147,6 +147,11 @@ func VerifyProof(
 	proof *ProofNodeSet,
 	hash crypto.HashFn,
 ) (felt.Felt, error) {
+	// The empty trie has a zero root and an empty proof: every key is absent
+	if root.IsZero() {
+		return felt.Zero, nil
+	}
+
 	var keyBits BitArray
 	keyBits.SetFelt(globalTrieHeight, keyFelt)
 	expectedHash := root
